@@ -46,11 +46,47 @@ for a in anchors1:
         hints.append("//@   %s apply %s(%s)" % (a, lname(tag), subst(f)))
 for tag, f in inv[2]:
     hints.append('//@   before "break main" apply %s(%s)' % (lname(tag), f))
+# helper cuts around the two replaceKeyAndContainerAtIndex calls (witness pinning: source slot pos1 is the ONLY slot carrying the key s1; the written slot
+# intersectionsize carries exactly the triple of source slot pos1; the slots below intersectionsize are untouched by the write)
+RK, RC, RF, XK = "rb.highlowcontainer.keys", "rb.highlowcontainer.containers", "rb.highlowcontainer.needCopyOnWrite", "x2.highlowcontainer.keys"
+keepbody = "(%s[j] == old(%s[i]) && !mem(%s, %s[j]) ==> %s[j] == old(%s[i]) && %s[j] == old(%s[i]))" % (RK, RK, XK, RK, RC, RC, RF, RF)
+ownbody = "(%s[j] == old(%s[i]) && mem(%s, %s[j]) ==> !%s[j] && (fresh(%s[j]) || (%s[j] == old(%s[i]) && !old(%s[i]))))" % (RK, RK, XK, RK, RF, RC, RC, RC, RF)
+U = "forall i in 0..length1 :: old(%s[i]) == s1 ==> i == pos1" % RK
+K1 = "forall j in 0..intersectionsize :: forall i in 0..length1 :: " + keepbody
+O1 = "forall j in 0..intersectionsize :: forall i in 0..length1 :: " + ownbody
+KS1 = "forall j in 0..intersectionsize :: exists i in 0..pos1 :: old(%s[i]) == %s[j]" % (RK, RK)
+KC1 = "forall i in 0..pos1 :: !mem(%s, old(%s[i])) ==> mem(%s[:intersectionsize], old(%s[i]))" % (XK, RK, RK, RK)
+B2 = "rb.highlowcontainer.replaceKeyAndContainerAtIndex(intersectionsize, s1, c1, mustCopyOnWrite)"
+B1 = "rb.highlowcontainer.replaceKeyAndContainerAtIndex(intersectionsize, s1, diff, false)"
+G1 = "c1 := rb.highlowcontainer.getWritableContainerAtIndex(pos1)"
+D1 = "diff := c1.iandNot(c2)"
+helper = [
+ '//@   before "%s" apply lemma_an_ord(%s)' % (B2, U),
+ '//@   before "%s" apply lemma_an_fr(s1 == old(%s[pos1]) && c1 == old(%s[pos1]) && mustCopyOnWrite == old(%s[pos1]) && intersectionsize <= pos1 && pos1 < length1)' % (B2, RK, RC, RF),
+ '//@   before "%s" apply lemma_an_ord(!mem(%s, s1))' % (B2, XK),
+ '//@   after "%s" apply lemma_an_keep(%s)' % (B2, K1),
+ '//@   after "%s" apply lemma_an_own(%s)' % (B2, O1),
+ '//@   after "%s" apply lemma_an_fr(%s[intersectionsize] == old(%s[pos1]) && %s[intersectionsize] == old(%s[pos1]) && %s[intersectionsize] == old(%s[pos1]))' % (B2, RK, RK, RC, RC, RF, RF),
+ '//@   after "%s" apply lemma_an_ks(%s)' % (B2, KS1),
+ '//@   after "%s" apply lemma_an_kc(%s)' % (B2, KC1),
+ '//@   before "%s" apply lemma_an_ord(%s)' % (G1, U),
+ '//@   before "%s" apply lemma_an_fr(s1 == old(%s[pos1]) && intersectionsize <= pos1 && pos1 < length1)' % (G1, RK),
+ '//@   before "%s" apply lemma_an_ord(mem(%s, s1))' % (G1, XK),
+ '//@   after "%s" apply lemma_an_keep(%s)' % (D1, K1),
+ '//@   after "%s" apply lemma_an_own(%s)' % (D1, O1),
+ '//@   after "%s" apply lemma_an_own(fresh(diff) || (diff == old(%s[pos1]) && !old(%s[pos1])))' % (D1, RC, RF),
+ '//@   after "%s" apply lemma_an_keep(%s)' % (B1, K1),
+ '//@   after "%s" apply lemma_an_own(%s)' % (B1, O1),
+ '//@   after "%s" apply lemma_an_own(%s[intersectionsize] == old(%s[pos1]) && !%s[intersectionsize] && (fresh(%s[intersectionsize]) || (%s[intersectionsize] == old(%s[pos1]) && !old(%s[pos1]))))' % (B1, RK, RK, RF, RC, RC, RC, RF),
+ '//@   after "%s" apply lemma_an_ks(%s)' % (B1, KS1),
+ '//@   after "%s" apply lemma_an_kc(%s)' % (B1, KC1),
+]
+hints = helper + hints
 gen += procs + [""] + contracts + ["// END generated cuts", ""]
 # insert the lemma definitions before the contract block and the hint lines right after the contract header
 out = []
 for ln in lines:
-    if re.match(r"//@   (after|before) \"(if \(pos1 == length1\)|if pos1 == length1|if pos2 == length2|break main)", ln):
+    if re.match(r"//@   (after|before) \"(if \(pos1 == length1\)|if pos1 == length1|if pos2 == length2|break main|rb\.highlowcontainer\.replaceKeyAndContainerAtIndex|c1 := rb\.highlowcontainer\.getWritableContainerAtIndex|diff := c1\.iandNot)", ln):
         continue   # old generated hints
     if ln.startswith("//@ contract Bitmap.AndNot"):
         out += gen
